@@ -12,6 +12,8 @@ PROP = {
          "tests": [("TestVFC09Concurrent", (25, 120))], "shards": (2, 16)},
         {"name": "querylog", "pkg": "internal/querylog", "files": ["querylog/c05_qlog_test.go"],
          "tests": [("TestVFC05QueryLogPrograms", (60, 300))], "shards": (2, 16)},
+        {"name": "clients", "pkg": "internal/client", "files": ["client/c04_model_test.go", "client/c05_storage_test.go"],
+         "tests": [("TestVFC05ClientStoragePrograms", (60, 300))], "shards": (2, 16)},
         {"name": "dhcpd", "pkg": "internal/dhcpd", "files": ["dhcpd/c10_world_test.go", "dhcpd/c05_dhcp_test.go"],
          "tests": [("TestVFC05DHCPPrograms", (60, 300))], "shards": (2, 16)},
     ],
